@@ -134,7 +134,7 @@ def run_item(item, held=None):
                 r = b.close()
                 return ["badbody", X.from_etree(r) if r is not None else None], bad
         except Exception as e:
-            if not isinstance(e, (ValueError, TypeError, AttributeError, KeyError)) and type(e).__name__ not in ("ParseError", "OFXHeaderError") and len(ERRLOG) < 20:
+            if not isinstance(e, (ValueError, TypeError, AttributeError, KeyError, ArithmeticError)) and type(e).__name__ not in ("ParseError", "OFXHeaderError") and len(ERRLOG) < 20:
                 import traceback
 
                 # kept for the failure report only (never compared): where an unusual exception came from
